@@ -418,8 +418,9 @@ MANIFEST = {
                  "registries) + translator for Run's call sequences + lock-boundary schedule explorer on the real shardManagerImpl comparing final-state sets + whole-stream overlap harness",
     "text": "Theorems C08_*: for two and three successive incarnations of a shard's sender and receiver, in every interleaving of the critical sections of register / cleanup / watermark replay, the "
             "registries end holding exactly the newest incarnation's entries, nothing panics, no lock stays held; when all incarnations ended nothing is registered; a cleanup changes an entry only if "
-            "it is its own (any state, any incarnation); for a conditional registry any number of incarnations. The model's atomicity is tied to the code by enumerating every schedule of the real "
+            "it is its own (any state, any incarnation); and, unbounded, for ANY operation sequence (any number of incarnations, any interleaving) the sender-side entries registered last survive "
+            "every other incarnation's cleanup and guarded replays never crash. The model's atomicity is tied to the code by enumerating every schedule of the real "
             "methods at lock boundaries and comparing the sets of final states.",
-    "note": "Incarnation counts 2-4; an incarnation that starts registering before its predecessor has registered is outside the statement (the proxy cannot order them). Registration identity is the "
+    "note": "Receiver-side statements are for 2-3 incarnations (exhaustive); sender-side survival and crash-freedom are unbounded; an incarnation that starts registering before its predecessor has registered is outside the statement (the proxy cannot order them). Registration identity is the "
             "time.Now() stamp. Goroutine leak is observed on whole streams (handlers returning), not proved.",
 }
